@@ -12,7 +12,8 @@ Open Scope Z_scope.
 
 (* for every attribute of the documentation table and EVERY array shape: the translated shape check, with the
    keyword arguments written in that attribute's setter, accepts the shape iff it is a documented one -- except
-   for an empty leading axis on the three row-array attributes without a lower bound (see the _refuted theorem) *)
+   for an empty leading axis on the row-array attributes whose code has no lower bound; gap_row is computed from the
+   TRANSLATED flags reshape_rejects_empty / mesh_rejects_empty and is false everywhere once the code has the guards *)
 Theorem C17_accepts_iff_documented : forall d r s,
   In d doc_table -> find_setter (d_class d) (d_attr d) = Some r -> Forall (fun n => 0 <= n) s ->
   gap_row d && empty_rows s = false ->
@@ -20,9 +21,9 @@ Theorem C17_accepts_iff_documented : forall d r s,
 Proof. exact accepts_iff_documented_lemma. Qed.
 Print Assumptions C17_accepts_iff_documented.
 
-(* the full-strength statement (no exclusion) is FALSE for the faithful model: position paths and TriangularMesh
-   vertices / faces of shape (0,3) pass the validator although an object has at least one position / vertex / face;
-   replayed on the implementation by the harness (getB then fails with an internal numpy error) *)
+(* on every row that still IS a gap row the full-strength statement is FALSE for the faithful model: shape (0,3)
+   passes the validator although an object has at least one position / vertex / face; replayed on the implementation
+   by the harness (getB then fails with an internal numpy error).  Vacuous once no gap row is left. *)
 Theorem C17_accepts_iff_documented_refuted : forall d, In d doc_table -> gap_row d = true ->
   exists r, find_setter (d_class d) (d_attr d) = Some r /\ Forall (fun n => 0 <= n) [0; 3] /\
             accepts_shape r [0; 3] = Ok /\ in_doc (d_shape d) [0; 3] = false.
@@ -40,11 +41,14 @@ Proof. split; [exact doc_rows_have_setters|]. split; eexists; (split; [vm_comput
 (* whole assignments.  For every documented array attribute and every well-formed input -- None, a value that is not
    list/tuple/ndarray, one that numpy cannot convert to float, or a float array of ANY shape with ANY rational
    entries -- the translated setter (validator + value guards + the rest of the setter body) stores the value iff the
-   documentation allows it (shape, None, positive sizes, valid cylinder segment) and otherwise raises the library's
-   input error; it never raises a foreign exception.  Exclusion: an empty leading axis on the three gap rows. *)
+   documentation allows it (shape, None, positive sizes, valid cylinder segment, a tetrahedron with volume) and
+   otherwise raises the library's input error; it never raises a foreign exception.
+   The two exclusions are switched by flags TRANSLATED from the code and disappear when the code has the guard:
+   gap_row (an empty leading axis on position / mesh rows while reshape_rejects_empty / mesh_rejects_empty = false),
+   input_value_gap (coplanar tetrahedron vertices while tetra_rejects_coplanar = false). *)
 Theorem C17_assign_iff_documented : forall d r inp,
   In d doc_table -> find_setter (d_class d) (d_attr d) = Some r -> wf_vinput inp ->
-  gap_row d && input_empty_rows inp = false ->
+  gap_row d && input_empty_rows inp = false -> input_value_gap d inp = false ->
   (doc_accepts d inp = true -> exists v, assign_vec r inp = Stored v) /\
   (doc_accepts d inp = false -> assign_vec r inp = Rejected).
 Proof. exact assign_iff_documented_lemma. Qed.
@@ -57,8 +61,18 @@ Example C17_assign_iff_documented_nonvacuous :
      assign_vec r (IArray [5] [1; 2; 1; 0; 361]%Q) = Rejected /\ assign_vec r INone = Stored None)
   /\ (exists r, find_setter "BaseGeo" "position@init" = Some r /\
      assign_vec r (IArray [1; 3] [1; 2; 3]%Q) = Stored (Some ([1; 3], [1; 2; 3]%Q)) /\
-     assign_vec r (IArray [0; 3] []) = Crashed /\ assign_vec r INone = Rejected).
+     assign_vec r (IArray [2; 2] [1; 2; 3; 4]%Q) = Rejected /\ assign_vec r INone = Rejected).
 Proof. split; eexists; (split; [vm_compute; reflexivity|]); repeat split. Qed.
+
+(* while the Tetrahedron.vertices setter has no coplanarity guard the faithful model accepts four coplanar vertices
+   (replayed on the implementation: getB then fails with numpy.linalg.LinAlgError) *)
+Theorem C17_tetrahedron_coplanar_refuted : tetra_rejects_coplanar = false ->
+  exists r, find_setter "Tetrahedron" "vertices" = Some r /\
+    coplanar4 [0; 0; 0; 1; 0; 0; 0; 1; 0; 1; 1; 0]%Q = true /\
+    assign_vec r (IArray [4; 3] [0; 0; 0; 1; 0; 0; 0; 1; 0; 1; 1; 0]%Q)
+      = Stored (Some ([4; 3], [0; 0; 0; 1; 0; 0; 0; 1; 0; 1; 1; 0]%Q)).
+Proof. exact tetra_coplanar_refuted_lemma. Qed.
+Print Assumptions C17_tetrahedron_coplanar_refuted.
 
 (* geometry: the translated CylinderSegment guard rejects exactly the invalid region named by the property (negative
    sizes, inner radius above the outer one, reversed or more than 360 degree angle range), for all rationals *)
@@ -113,6 +127,31 @@ Theorem C17_handedness : exists r, find_setter "Sensor" "handedness" = Some r /\
     match inp with MStr s => if str_mem s ["right"; "left"] then Ok else Bad | _ => Bad end.
 Proof. exact handedness_row. Qed.
 Print Assumptions C17_handedness.
+
+(* orientation (setter and constructor; check_format_input_orientation is pinned by the translator): None and every
+   scipy Rotation are stored -- None as one unit quaternion, a single rotation as one, a stack of n as n -- and every
+   other value raises the library's input error *)
+Theorem C17_orientation_assign : forall a r inp, In a ["orientation"; "orientation@init"] ->
+  find_setter "BaseGeo" a = Some r ->
+  assign_orient r inp = if odoc_accepts inp
+                        then OStored (match inp with ORot false n => n | _ => 1 end) else ORejected.
+Proof. exact orientation_assign_lemma. Qed.
+Print Assumptions C17_orientation_assign.
+
+(* CustomSource.field_func (validate_field_func translated): for every value whose probe calls do not raise, accepted
+   iff None or a callable(field, observers, ...) whose B and H probes return None or an ndarray of the probe's
+   shape; everything else raises the library's input error *)
+Theorem C17_field_func_assign : forall r inp, find_setter "BaseSource" "field_func" = Some r -> wf_finput inp ->
+  assign_func "CustomSource" r inp = if fdoc_accepts inp then Ok else Bad.
+Proof. exact field_func_assign_lemma. Qed.
+Print Assumptions C17_field_func_assign.
+
+Example C17_field_func_assign_nonvacuous : field_func_fields = ["B"; "H"] /\ field_func_probe_shape = [2; 3] /\
+  exists r, find_setter "BaseSource" "field_func" = Some r /\
+  assign_func "CustomSource" r (FCallable true [FoArray [2; 3]; FoNone]) = Ok /\
+  assign_func "CustomSource" r (FCallable true [FoArray [2; 2]; FoArray [2; 3]]) = Bad /\
+  assign_func "CustomSource" r (FCallable false []) = Bad /\ assign_func "Cuboid" r FNone = Crash.
+Proof. split; [reflexivity|]. split; [reflexivity|]. eexists. split; [vm_compute; reflexivity|]. repeat split. Qed.
 
 (* accepted values are stored unchanged: same entries, same shape (position: reshaped to (-1,3)) *)
 Theorem C17_stored_faithfully : forall r s vals s' vals',
